@@ -711,6 +711,12 @@ func (P) Generate(g *core.Gen) {
 // genShipped: the shipped deployments of each network (real bit/start/end/min height/threshold),
 // on the two networks with a small window, timestamps straddling their start/end times.
 func genShipped(g *core.Gen) {
+	// reads the shipped tables of the tree under test: a mutated tree must not crash the generator
+	defer func() {
+		if rec := recover(); rec != nil {
+			g.Case("shipped-unreadable", true, "C14 q 2 2 - - -")
+		}
+	}()
 	r := g.R.Fork()
 	nSmall := g.N(12, 300)
 	for i := 0; i < nSmall+g.N(2, 12); i++ {
